@@ -2,7 +2,7 @@
 from .. import incr, simlib
 
 MANIFEST = dict(engine="nsim", category="exploration", technique='runtime monitoring: nsim traces; oracle = executable make-semantics reference model R(T), set equality',
-                text='From converged states a change set (touch/edit of sources and discovered headers, deletion of outputs, depfiles and logs, command and rspfile changes) is applied and a random target subset is built fault-free under a PRNG schedule; the set of STARTed statements must EQUAL R(T) of the independent make-semantics model (both directions: unneeded / missed). A restat-focused family stresses order-only-only changes, restat pruning and the generator exemption.',
+                text='From converged states a change set (touch/edit of sources and discovered headers, deletion of outputs, depfiles and logs, command, rspfile and manifest changes (including a manifest that ninja regenerates and reloads itself)) is applied and a random target subset is built fault-free under a PRNG schedule; the set of STARTed statements must EQUAL R(T) of the independent make-semantics model (both directions: unneeded / missed). A restat-focused family stresses order-only-only changes, restat pruning and the generator exemption.',
                 note='Trusted: vlib/model.py expected_runs (triaged against the manual; corrections logged in DESIGN.md). Only change kinds the property lists are generated.', ref="DESIGN.md §5 C03")
 
 
@@ -18,7 +18,9 @@ def run(ctx):
     incr.run_incremental(ctx, "C03", n // 3, salt=1, size_range=(3, 7),
                          feat=dict(restat=0.55, order_only=0.7, deps=0.6, generator=0.1, phony=0.35),
                          change_kinds=["touch", "touch", "edit", "edit_hdr", "rm_out", "cmd", "rm_depfile"])
-    ctx.rule = ("seeded random graphs of 3..%d statements x histories of 2..5 change+build rounds (plus immediate re-runs); "
+    # self-regenerating manifests: build.ninja is a generator output selected by a config file
+    incr.run_regen(ctx, "C03", n // 10, size_range=(2, 6))
+    ctx.rule = ("seeded random graphs of 3..%d statements x histories of 2..5 change+build rounds (plus immediate re-runs), plus histories in which ninja regenerates and reloads its own manifest; "
                 "distinct_nontrivial = distinct (scenario, build step) pairs judged by this property's monitor that follow at "
                 "least one change" % (9 if quick else 14))
     ctx.assumptions = ["commands are deterministic functions of what they read at START and write only declared outputs",
